@@ -1,7 +1,876 @@
-//! C20 engine (not yet built).
-use crate::common::{CaseWriter, Opts};
+//! C20 engine — "Formatting is idempotent and never crashes".
+//!
+//! Streams (all seeded from `Rng::new(opts.seed)`):
+//!  * `fmt.diag`  — crash-freedom on arbitrary text: random byte strings, token soup over the full
+//!    token vocabulary, mutated/truncated valid programs, a fixed boundary list.  The real
+//!    `jrsonnet_formatter::format` runs in-process under `guarded`; the parse errors of the real
+//!    rowan parser (ranges) travel to the Lean model, which predicts the outcome of the diagnostic
+//!    branch (`Fmt.errorRange` + the hi-doc bound).
+//!  * `fmt.idem`  — generated valid programs × indent {tabs, 2, 4}: `format(format(x)) == format(x)`
+//!    and the second pass is accepted by the `--test` decision of the modelled `main_result`.
+//!  * `fmt.main`  — the `jrsonnet-fmt` binary against `FmtMain.run` (Lean) fed with the table of
+//!    in-process `format` results: exit code and stdout for plain / `--test` / `--conv-limit` runs.
+//!  * `fmt.deep`  — the binary on deeply nested input (separate process: stack exhaustion).
+use std::collections::BTreeMap;
+use std::io::Write as _;
+use std::process::{Command, Stdio};
+
+use jrsonnet_formatter::{format, FormatOptions};
+use serde_json::json;
+
+use crate::common::{guarded, CaseWriter, Opts, Rng};
+
+// ------------------------------------------------------------------------------------------
+// running the real code
+// ------------------------------------------------------------------------------------------
+
+/// outcome of one in-process `format` call
+#[derive(Clone, Debug, PartialEq)]
+pub enum Out {
+	Ok(String),
+	Diag,
+	Panic(String),
+}
+
+fn run_format(src: &str, indent: u8) -> Out {
+	match guarded(|| format(src, &FormatOptions { indent }).map_err(|_| ())) {
+		Ok(Ok(s)) => Out::Ok(s),
+		Ok(Err(())) => Out::Diag,
+		Err(p) => Out::Panic(p),
+	}
+}
+
+/// parse errors of the real rowan parser: Ok(ranges) or the panic message
+fn run_parse(src: &str) -> Result<Vec<(usize, usize)>, String> {
+	guarded(|| {
+		jrsonnet_rowan_parser::parse(src)
+			.1
+			.iter()
+			.map(|e| (usize::from(e.range.start()), usize::from(e.range.end())))
+			.collect()
+	})
+}
+
+/// panic message → stable class name (used by classifiers and histograms)
+fn panic_class(msg: &str) -> String {
+	let table: [(&str, &str); 14] = [
+		("expected L_PAREN", "parser:bump_assert-L_PAREN"),
+		("Text::can_cast", "parser:import-text-assert"),
+		("already at end", "parser:bump-at-end"),
+		("seems like parsing is stuck", "parser:stuck"),
+		("attempt to subtract with overflow", "arith:subtract-overflow"),
+		("out of bounds annotation", "hi-doc:out-of-bounds-annotation"),
+		("Found a tab in the string", "dprint:tab-in-string"),
+		("Found a newline in the string", "dprint:newline-in-string"),
+		("silently eaten token", "formatter:silently-eaten-token"),
+		("formatting is not performed on code with parsing errors", "formatter:text-block-expect"),
+		("all non-empty lines start with this padding", "formatter:comment-padding-expect"),
+		("at least one spec is defined", "formatter:objcomp-no-spec"),
+		("byte index", "str:byte-index"),
+		("hard oob", "sink:hard-oob"),
+	];
+	for (needle, class) in table {
+		if msg.contains(needle) {
+			return class.to_string();
+		}
+	}
+	let short: String = msg.chars().take(60).collect();
+	format!("other:{short}")
+}
+
+// ------------------------------------------------------------------------------------------
+// generators
+// ------------------------------------------------------------------------------------------
+
+const IDENTS: [&str; 8] = ["a", "b", "x", "y", "foo", "std", "self", "$"];
+const STRINGS: [&str; 10] = [
+	"\"s\"",
+	"'t'",
+	"\"\"",
+	"\"a\\nb\"",
+	"@\"v\"\"w\"",
+	"@'q'",
+	"\"é\"",
+	"\"a b\"",
+	"|||\n  text\n   more\n\n  end\n|||",
+	"|||-\n\tt\n|||",
+];
+const NUMBERS: [&str; 6] = ["0", "1", "2.5", "1e3", "10", "1.0e-2"];
+const BINOPS: [&str; 19] = [
+	"+", "-", "*", "/", "%", "==", "!=", "<", "<=", ">", ">=", "&&", "||", "&", "|", "^", "<<", ">>", "in",
+];
+const UNOPS: [&str; 3] = ["-", "!", "~"];
+
+/// token-level program generator; tokens are later joined by `layout`
+struct Gen<'r> {
+	rng: &'r mut Rng,
+	toks: Vec<String>,
+	/// rich = also use the constructs the rowan parser accepts beyond core (destructuring, `?.`)
+	rich: bool,
+}
+impl Gen<'_> {
+	fn t(&mut self, s: &str) {
+		self.toks.push(s.to_string());
+	}
+	fn tp(&mut self, xs: &[&str]) {
+		let i = self.rng.below(xs.len());
+		self.toks.push(xs[i].to_string());
+	}
+	fn ident(&mut self) {
+		let i = self.rng.below(5);
+		self.t(IDENTS[i]);
+	}
+	fn expr(&mut self, d: usize) {
+		let leaf = d == 0 || self.rng.chance(1, 4);
+		if leaf {
+			match self.rng.below(8) {
+				0 => self.tp(&["null", "true", "false", "self", "$"]),
+				1 | 2 => self.tp(&NUMBERS),
+				3 | 4 => self.tp(&STRINGS),
+				5 => {
+					self.t("[");
+					self.t("]");
+				}
+				6 => {
+					self.t("{");
+					self.t("}");
+				}
+				_ => self.ident(),
+			}
+			return;
+		}
+		match self.rng.below(20) {
+			0 | 1 => self.array(d),
+			2 | 3 | 4 => self.object(d),
+			5 => {
+				// local
+				self.t("local");
+				let n = 1 + self.rng.below(3);
+				for i in 0..n {
+					if i > 0 {
+						self.t(",");
+					}
+					self.bind(d);
+				}
+				self.t(";");
+				self.expr(d - 1);
+			}
+			6 => {
+				self.t("if");
+				self.expr(d - 1);
+				self.t("then");
+				self.expr(d - 1);
+				if self.rng.chance(2, 3) {
+					self.t("else");
+					self.expr(d - 1);
+				}
+			}
+			7 => {
+				self.t("function");
+				self.params(d);
+				self.expr(d - 1);
+			}
+			8 => {
+				self.t("error");
+				self.expr(d - 1);
+			}
+			9 => {
+				self.tp(&["import", "importstr", "importbin"]);
+				self.tp(&["\"f.libsonnet\"", "'x'", "@\"p\""]);
+			}
+			10 => {
+				self.tp(&UNOPS);
+				self.expr(d - 1);
+			}
+			11 | 12 | 13 => {
+				self.expr(d - 1);
+				self.tp(&BINOPS);
+				self.expr(d - 1);
+			}
+			14 => {
+				self.t("(");
+				self.expr(d - 1);
+				self.t(")");
+			}
+			15 | 16 => {
+				// suffixes
+				self.ident();
+				let n = 1 + self.rng.below(3);
+				for _ in 0..n {
+					self.suffix(d);
+				}
+			}
+			17 => {
+				// object extension
+				self.ident();
+				self.object(d);
+			}
+			18 => {
+				self.t("assert");
+				self.expr(d - 1);
+				if self.rng.chance(1, 2) {
+					self.t(":");
+					self.expr(d - 1);
+				}
+				self.t(";");
+				self.expr(d - 1);
+			}
+			_ => {
+				self.t("super");
+				self.t(".");
+				self.ident();
+			}
+		}
+	}
+	fn suffix(&mut self, d: usize) {
+		match self.rng.below(if self.rich { 7 } else { 6 }) {
+			0 | 1 => {
+				self.t(".");
+				let i = self.rng.below(4);
+				self.t(IDENTS[i]);
+			}
+			2 => {
+				self.t("[");
+				self.expr(d - 1);
+				self.t("]");
+			}
+			3 => {
+				self.t("[");
+				if self.rng.chance(1, 2) {
+					self.expr(d - 1);
+				}
+				self.t(":");
+				if self.rng.chance(1, 2) {
+					self.expr(d - 1);
+				}
+				if self.rng.chance(1, 3) {
+					self.t(":");
+					if self.rng.chance(1, 2) {
+						self.expr(d - 1);
+					}
+				}
+				self.t("]");
+			}
+			4 | 5 => {
+				self.t("(");
+				let n = self.rng.below(4);
+				let named_from = self.rng.below(5);
+				for i in 0..n {
+					if i > 0 {
+						self.t(",");
+					}
+					if i >= named_from {
+						self.t(["p", "q", "r", "s"][i]);
+						self.t("=");
+					}
+					self.expr(d - 1);
+				}
+				if n > 0 && self.rng.chance(1, 4) {
+					self.t(",");
+				}
+				self.t(")");
+				if self.rng.chance(1, 6) {
+					self.t("tailstrict");
+				}
+			}
+			_ => {
+				self.t("?");
+				self.t(".");
+				let i = self.rng.below(4);
+				self.t(IDENTS[i]);
+			}
+		}
+	}
+	fn params(&mut self, d: usize) {
+		self.t("(");
+		let n = self.rng.below(4);
+		for i in 0..n {
+			if i > 0 {
+				self.t(",");
+			}
+			self.t(["p", "q", "r", "s"][i]);
+			if self.rng.chance(1, 3) {
+				self.t("=");
+				self.expr(d - 1);
+			}
+		}
+		if n > 0 && self.rng.chance(1, 5) {
+			self.t(",");
+		}
+		self.t(")");
+	}
+	fn bind(&mut self, d: usize) {
+		match self.rng.below(if self.rich { 6 } else { 4 }) {
+			0 | 1 => {
+				self.ident_plain();
+				self.t("=");
+				self.expr(d - 1);
+			}
+			2 => {
+				self.ident_plain();
+				self.params(d);
+				self.t("=");
+				self.expr(d - 1);
+			}
+			3 => {
+				self.ident_plain();
+				self.t("=");
+				self.t("function");
+				self.params(d);
+				self.expr(d - 1);
+			}
+			4 => {
+				self.t("[");
+				self.t("a");
+				self.t(",");
+				self.t("...");
+				self.t("]");
+				self.t("=");
+				self.expr(d - 1);
+			}
+			_ => {
+				self.t("{");
+				self.t("a");
+				self.t(",");
+				self.t("b");
+				self.t("}");
+				self.t("=");
+				self.expr(d - 1);
+			}
+		}
+	}
+	fn ident_plain(&mut self) {
+		let i = self.rng.below(5);
+		self.t(["a", "b", "x", "y", "foo"][i]);
+	}
+	fn array(&mut self, d: usize) {
+		self.t("[");
+		if self.rng.chance(1, 5) {
+			// comprehension
+			self.expr(d - 1);
+			if self.rng.chance(1, 4) {
+				self.t(",");
+			}
+			self.compspecs(d);
+		} else {
+			let n = self.rng.below(5);
+			for i in 0..n {
+				if i > 0 {
+					self.t(",");
+				}
+				self.expr(d - 1);
+			}
+			if n > 0 && self.rng.chance(1, 3) {
+				self.t(",");
+			}
+		}
+		self.t("]");
+	}
+	fn compspecs(&mut self, d: usize) {
+		self.t("for");
+		self.ident_plain();
+		self.t("in");
+		self.expr(d - 1);
+		let n = self.rng.below(3);
+		for _ in 0..n {
+			if self.rng.chance(1, 2) {
+				self.t("if");
+				self.expr(d - 1);
+			} else {
+				self.t("for");
+				self.ident_plain();
+				self.t("in");
+				self.expr(d - 1);
+			}
+		}
+	}
+	fn field_name(&mut self, d: usize) {
+		match self.rng.below(6) {
+			0 | 1 | 2 => self.ident_plain(),
+			3 => self.tp(&["\"k\"", "'k 2'", "@\"v\""]),
+			_ => {
+				self.t("[");
+				self.expr(d - 1);
+				self.t("]");
+			}
+		}
+	}
+	fn object(&mut self, d: usize) {
+		self.t("{");
+		if self.rng.chance(1, 6) {
+			// object comprehension
+			if self.rng.chance(1, 3) {
+				self.t("local");
+				self.bind(d);
+				self.t(",");
+			}
+			self.t("[");
+			self.expr(d - 1);
+			self.t("]");
+			self.t(":");
+			self.expr(d - 1);
+			if self.rng.chance(1, 4) {
+				self.t(",");
+			}
+			self.compspecs(d);
+			self.t("}");
+			return;
+		}
+		let n = self.rng.below(5);
+		for i in 0..n {
+			if i > 0 {
+				self.t(",");
+			}
+			match self.rng.below(8) {
+				0 => {
+					self.t("local");
+					self.bind(d);
+				}
+				1 => {
+					self.t("assert");
+					self.expr(d - 1);
+					if self.rng.chance(1, 2) {
+						self.t(":");
+						self.expr(d - 1);
+					}
+				}
+				2 => {
+					self.field_name(d);
+					self.params(d);
+					self.tp(&[":", "::", ":::"]);
+					self.expr(d - 1);
+				}
+				_ => {
+					self.field_name(d);
+					if self.rng.chance(1, 5) {
+						self.t("+");
+					}
+					self.tp(&[":", ":", "::", ":::"]);
+					self.expr(d - 1);
+				}
+			}
+		}
+		if n > 0 && self.rng.chance(1, 2) {
+			self.t(",");
+		}
+		self.t("}");
+	}
+}
+
+fn is_wordy(c: char) -> bool {
+	c.is_alphanumeric() || c == '_' || c == '"' || c == '\'' || c == '@' || c == '$' || c == '|'
+}
+const TIGHT: [&str; 8] = ["(", ")", "[", "]", "{", "}", ",", ";"];
+const COMMENTS: [&str; 12] = [
+	" /* c */ ",
+	" // line\n",
+	" # hash\n",
+	"\n// own line\n",
+	"\n\n# para\n",
+	"/* multi\n   line\n */",
+	"\n/** doc\n * text\n */\n",
+	"/**/",
+	" //\n",
+	"\n/*\n\tindented\n\t\tmore\n*/\n",
+	"/* a\tb */",
+	" // tab\there\n",
+];
+
+/// layout style: 0 = single spaces, 1 = mixed whitespace, 2 = whitespace + comments
+fn layout(rng: &mut Rng, toks: &[String], style: usize) -> String {
+	let mut s = String::new();
+	if style == 2 && rng.chance(1, 6) {
+		s.push_str(*rng.pick(&COMMENTS));
+	}
+	for (i, t) in toks.iter().enumerate() {
+		if i > 0 {
+			let prev = &toks[i - 1];
+			let glue_ok = TIGHT.contains(&prev.as_str()) || TIGHT.contains(&t.as_str());
+			let sep: &str = match style {
+				0 => " ",
+				_ => {
+					let r = rng.below(100);
+					if r < 45 {
+						" "
+					} else if r < 55 && glue_ok {
+						""
+					} else if r < 75 {
+						"\n"
+					} else if r < 80 {
+						"\n\n"
+					} else if r < 84 {
+						"\n\n\n"
+					} else if r < 88 {
+						"\t"
+					} else if r < 91 {
+						"  \n  "
+					} else if style == 2 {
+						*rng.pick(&COMMENTS)
+					} else {
+						" "
+					}
+				}
+			};
+			// never glue two word-like tokens or build a different token by accident
+			if sep.is_empty() {
+				let a = prev.chars().last().unwrap_or(' ');
+				let b = t.chars().next().unwrap_or(' ');
+				if is_wordy(a) && is_wordy(b) {
+					s.push(' ');
+				}
+			}
+			s.push_str(sep);
+		}
+		s.push_str(t);
+	}
+	if style == 2 && rng.chance(1, 5) {
+		s.push_str(*rng.pick(&COMMENTS));
+	}
+	if rng.chance(1, 2) {
+		s.push('\n');
+	}
+	s
+}
+
+fn gen_program(rng: &mut Rng, depth: usize, rich: bool) -> Vec<String> {
+	let mut g = Gen { rng, toks: Vec::new(), rich };
+	g.expr(depth);
+	g.toks
+}
+
+const VOCAB: [&str; 70] = [
+	"x", "y", "1", "2.5", "\"s\"", "'t'", "@\"v\"", "|||\n a\n|||", "|||", "(", ")", "[", "]", "{", "}", ":",
+	"::", ":::", ",", ".", ";", "=", "+", "-", "*", "/", "%", "!", "~", "==", "!=", "<", "<=", ">", ">=",
+	"&&", "||", "&", "|", "^", "<<", ">>", "in", "if", "then", "else", "local", "for", "function",
+	"import", "importstr", "importbin", "error", "assert", "self", "super", "$", "null", "true", "false",
+	"tailstrict", "?", "...", "//c\n", "/*c*/", "#h\n", "/*", "\"", "\n", "\t",
+];
+
+const BOUNDARY: [&str; 64] = [
+	"", " ", "\n", "\t", "+1", "+", "function", "function 1", "function(", "function(a", "import", "import a",
+	"importstr", "importbin 1", "{", "{ a", "{ a:", "{ a: 1", "{ a: 1,", "{  )  \r", "{ a b c }", "{ a = 1 }",
+	"{ local", "{ assert", "{ [", "{ a(", "{ a: function", "{a: function 1}", "local a = function 1; a",
+	"local", "local a", "local a =", "local a = 1", "local a = 1;", "local a(", "[", "[1", "[1,", "[1 for",
+	"[1 for x", "[1 for x in", "(", "()", "if", "if 1", "if 1 then", "if 1 then 2 else", "error", "-", "!",
+	"a.", "a?", "a?.", "a[", "a[:", "a[1:2:", "a(", "a(b=", "/*", "/*/", "\"", "'", "|||", "|||\n",
+];
+
+// ------------------------------------------------------------------------------------------
+// jrsonnet-fmt binary
+// ------------------------------------------------------------------------------------------
+pub struct BinOut {
+	pub code: Option<i32>,
+	pub stdout: String,
+	pub panicked: bool,
+	pub stderr_tail: String,
+}
+fn fmt_bin() -> Option<std::path::PathBuf> {
+	let dir = std::env::var_os("VERIF_BIN_DIR")?;
+	let p = std::path::PathBuf::from(dir).join("jrsonnet-fmt");
+	p.exists().then_some(p)
+}
+fn run_bin(bin: &std::path::Path, src: &str, flags: &[String], dir: &std::path::Path) -> BinOut {
+	// through a file: `-e` cannot carry texts starting with `-`
+	let path = dir.join("c20_input.jsonnet");
+	std::fs::File::create(&path).and_then(|mut f| f.write_all(src.as_bytes())).expect("write input");
+	let out = Command::new(bin)
+		.args(flags)
+		.arg("--")
+		.arg(&path)
+		.env("RUST_BACKTRACE", "0")
+		.stdin(Stdio::null())
+		.output()
+		.expect("spawn jrsonnet-fmt");
+	let stderr = String::from_utf8_lossy(&out.stderr).to_string();
+	let tail: String = stderr
+		.lines()
+		.filter(|l| !l.contains("is a prototype") && !l.contains("It is not expected"))
+		.collect::<Vec<_>>()
+		.join("\n");
+	BinOut {
+		code: out.status.code(),
+		stdout: String::from_utf8_lossy(&out.stdout).to_string(),
+		panicked: stderr.contains("panicked at") || out.status.code().is_none() || out.status.code() == Some(101),
+		stderr_tail: tail.chars().take(300).collect(),
+	}
+}
+
+// ------------------------------------------------------------------------------------------
+// case emission
+// ------------------------------------------------------------------------------------------
+struct Ctx {
+	w: CaseWriter,
+	hist: BTreeMap<String, u64>,
+	seen: std::collections::HashSet<String>,
+}
+impl Ctx {
+	fn bump(&mut self, k: &str) {
+		*self.hist.entry(k.to_string()).or_insert(0) += 1;
+	}
+
+	/// crash-freedom + diagnostic branch model.  Returns the outcome for indent 2.
+	fn diag(&mut self, gen: &str, src: &str) -> Out {
+		let out = run_format(src, 2);
+		self.bump(&format!("gen.{gen}"));
+		if !self.seen.insert(src.to_string()) {
+			return out;
+		}
+		let parsed = run_parse(src);
+		let (res, msg) = match &out {
+			Out::Ok(_) => ("ok", String::new()),
+			Out::Diag => ("diag", String::new()),
+			Out::Panic(m) => ("panic", m.clone()),
+		};
+		self.bump(&format!("diag.{res}"));
+		if let Out::Panic(m) = &out {
+			self.bump(&format!("panic.{}", panic_class(m)));
+		}
+		let mut op = json!({"op":"fmt.diag","gen":gen,"t":src,"len":src.len(),"size":src.len()});
+		match &parsed {
+			Ok(errs) => {
+				op["errs"] = json!(errs.iter().map(|(s, e)| json!([s, e])).collect::<Vec<_>>());
+			}
+			Err(m) => {
+				op["parse_panic"] = json!(panic_class(m));
+			}
+		}
+		if matches!(parsed, Ok(ref e) if e.is_empty()) && res == "ok" {
+			// valid text, formatted: nothing for the diagnostic model to decide
+			op["trivial"] = json!(true);
+		}
+		self.w.case(op, json!({"res": res, "_class": if msg.is_empty() { String::new() } else { panic_class(&msg) }, "_msg": msg.chars().take(200).collect::<String>()}));
+		out
+	}
+
+	/// one run of the real binary against the Lean model of `main_result`, fed with the table of
+	/// in-process format results.  Returns stdout if the exit code was 0.
+	#[allow(clippy::too_many_arguments)]
+	fn main_case(&mut self, bin: &std::path::Path, dir: &std::path::Path, gen: &str, src: &str, indent: u8, hard: bool,
+		limit: usize, test: bool, expect_accept: Option<&str>) -> Option<String> {
+		let mut flags: Vec<String> = vec!["--indent".into(), indent.to_string(), "--conv-limit".into(), limit.to_string()];
+		if hard {
+			flags.push("--hard-tabs".into());
+		}
+		if test {
+			flags.push("--test".into());
+		}
+		let r = run_bin(bin, src, &flags, dir);
+		// tables for the effective indents the flags could mean (the model picks one)
+		let mut tables = serde_json::Map::new();
+		for eff in [0u8, indent] {
+			let mut rows = Vec::new();
+			let mut cur = src.to_string();
+			for _ in 0..limit + 2 {
+				match run_format(&cur, eff) {
+					Out::Ok(f) => {
+						let t = f.trim().to_owned();
+						rows.push(json!([cur, t]));
+						if t == cur {
+							break;
+						}
+						cur = t;
+					}
+					Out::Diag => {
+						rows.push(json!([cur, null]));
+						break;
+					}
+					Out::Panic(_) => break,
+				}
+			}
+			tables.insert(eff.to_string(), json!(rows));
+		}
+		self.bump(&format!("main.{gen}.code{}", r.code.map_or("-signal".to_string(), |c| c.to_string())));
+		let mut op = json!({"op":"fmt.main","gen":gen,"input":src,"indent":indent,"hard_tabs":hard,"limit":limit,"test":test,
+			"tables":tables,"size":src.len()});
+		if let Some(y) = expect_accept {
+			op["expect"] = json!({"code":0,"stdout":y});
+		}
+		self.w.case(op, json!({"code": r.code.unwrap_or(255), "stdout": r.stdout, "_stderr": r.stderr_tail}));
+		(r.code == Some(0)).then_some(r.stdout)
+	}
+
+	/// fixed point for one valid program and one indent setting
+	fn idem(&mut self, gen: &str, src: &str, indent: u8) -> Option<String> {
+		let once = run_format(src, indent);
+		let Out::Ok(f1) = once else {
+			return None;
+		};
+		let twice = run_format(&f1, indent);
+		let (res, f2, msg) = match twice {
+			Out::Ok(s) => ("ok", s, String::new()),
+			Out::Diag => ("diag", String::new(), String::new()),
+			Out::Panic(m) => ("panic", String::new(), m),
+		};
+		self.bump(&format!("idem.indent{indent}.{}", if res == "ok" && f2 == f1 { "fixpoint" } else if res == "ok" { "changed" } else { res }));
+		// passes until the text stops changing (1 = `once` already is a fixed point; 99 = not within 4)
+		let mut conv = 99;
+		if res == "ok" {
+			let (mut prev, mut cur) = (f1.clone(), f2.clone());
+			for k in 1..=4 {
+				if prev == cur {
+					conv = k;
+					break;
+				}
+				match run_format(&cur, indent) {
+					Out::Ok(next) => {
+						prev = cur;
+						cur = next;
+					}
+					_ => break,
+				}
+			}
+		}
+		self.bump(&format!("idem.passes-to-settle.{conv}"));
+		self.w.case(
+			json!({"op":"fmt.idem","gen":gen,"t":src,"indent":indent,"once":f1,"size":src.len()}),
+			json!({"res":res,"twice":f2,"_conv":conv,"_msg":msg.chars().take(200).collect::<String>(),
+				"_class": if msg.is_empty() { String::new() } else { panic_class(&msg) }}),
+		);
+		Some(f1)
+	}
+}
+
+fn random_bytes(rng: &mut Rng) -> String {
+	let n = rng.below(24);
+	let bytes: Vec<u8> = (0..n)
+		.map(|_| {
+			if rng.chance(3, 4) {
+				// printable ASCII biased towards Jsonnet punctuation
+				*rng.pick(b"{}[]():;,.=+-*/%!~<>&|^?$@#'\"\\ \n\t\rabcxyz0123456789_")
+			} else {
+				rng.below(256) as u8
+			}
+		})
+		.collect();
+	String::from_utf8_lossy(&bytes).to_string()
+}
+
+fn truncate_at(src: &str, at: usize) -> &str {
+	let mut i = at.min(src.len());
+	while !src.is_char_boundary(i) {
+		i -= 1;
+	}
+	&src[..i]
+}
 
 pub fn run(opts: &Opts) {
-	let w = CaseWriter::new(&opts.out);
-	w.finish(serde_json::json!({"engine":"c20","cases":0,"rule":"stub"}), &opts.out);
+	let mut rng = Rng::new(opts.seed);
+	let mut c = Ctx { w: CaseWriter::new(&opts.out), hist: BTreeMap::new(), seen: Default::default() };
+	let thorough = opts.thorough();
+	let (n_bytes, n_soup, n_prog, n_mut) = if thorough { (6000, 12000, 2500, 8) } else { (1500, 3000, 500, 4) };
+
+	// ---- boundary list ----
+	for s in BOUNDARY {
+		c.diag("boundary", s);
+	}
+	// ---- random byte strings ----
+	for _ in 0..n_bytes {
+		let s = random_bytes(&mut rng);
+		c.diag("bytes", &s);
+	}
+	// ---- token soup ----
+	for _ in 0..n_soup {
+		let n = 1 + rng.below(9);
+		let toks: Vec<String> = (0..n).map(|_| (*rng.pick(&VOCAB)).to_string()).collect();
+		let s = layout(&mut rng, &toks, 1);
+		c.diag("soup", &s);
+	}
+	// ---- valid programs, their mutations, fixed point ----
+	let mut valid = 0u64;
+	let mut programs: Vec<String> = Vec::new();
+	for i in 0..n_prog {
+		let depth = 1 + rng.below(4);
+		let toks = gen_program(&mut rng, depth, i % 4 == 3);
+		let style = i % 3;
+		let src = layout(&mut rng, &toks, style);
+		let out = c.diag(&format!("program.style{style}"), &src);
+		if matches!(out, Out::Ok(_)) {
+			valid += 1;
+			for indent in [0u8, 2, 4] {
+				c.idem(&format!("program.style{style}"), &src, indent);
+			}
+			if programs.len() < 64 {
+				programs.push(src.clone());
+			}
+		}
+		// mutations: drop / duplicate / replace a token, truncate the text
+		for _ in 0..n_mut {
+			let mut t = toks.clone();
+			let k = rng.below(t.len());
+			match rng.below(4) {
+				0 => {
+					t.remove(k);
+				}
+				1 => {
+					let x = t[k].clone();
+					t.insert(k, x);
+				}
+				2 => t[k] = (*rng.pick(&VOCAB)).to_string(),
+				_ => t.truncate(k),
+			}
+			let m = layout(&mut rng, &t, 1);
+			c.diag("mutant", &m);
+			let cut = rng.below(src.len() + 1);
+			c.diag("truncated", truncate_at(&src, cut));
+		}
+	}
+	c.hist.insert("programs.valid".into(), valid);
+
+	// ---- the jrsonnet-fmt binary against FmtMain (Lean) ----
+	if let Some(bin) = fmt_bin() {
+		let mut inputs: Vec<String> = programs.iter().take(if thorough { 64 } else { 24 }).cloned().collect();
+		for s in ["", "+1", "{", "local a = 1;", "{ a: 1 }", "{ a: 1 }\n", "{a:1}\n", "[1,\n2]", "  1  \n\n", "1", "1\n", "// c\n1\n",
+			"local a = -1; !a", "{a: 1 for x in y if z}", "f(x) tailstrict"] {
+			inputs.push(s.to_string());
+		}
+		for (k, src) in inputs.iter().enumerate() {
+			// (indent, hard_tabs, conv_limit, test)
+			let combos: [(u8, bool, usize, bool); 6] =
+				[(2, false, 0, false), (4, false, 0, false), (0, false, 0, false), (2, true, 0, false), (2, false, 3, false), (2, false, 0, true)];
+			for (ci, &(indent, hard, limit, test)) in combos.iter().enumerate() {
+				if ci >= 2 && ci <= 4 && k % 3 != 0 {
+					continue; // the rarer flag combinations on a third of the inputs
+				}
+				let out = c.main_case(&bin, &opts.out, "main", src, indent, hard, limit, test, None);
+				// what plain jrsonnet-fmt printed must be accepted by --test, same settings
+				if let (false, Some(y)) = (test, out) {
+					c.main_case(&bin, &opts.out, "produce-then-test", &y, indent, hard, limit, true, Some(&y));
+					if limit == 0 && k % 3 == 0 {
+						c.main_case(&bin, &opts.out, "produce-then-test-conv", &y, indent, hard, 2, true, Some(&y));
+					}
+				}
+			}
+		}
+		// ---- nesting depth (own process: stack exhaustion cannot be caught in-process) ----
+		for n in [64usize, 200, 255, 256, 300, 3000] {
+			for (open, close) in [("[", "]"), ("(", ")")] {
+				let src = format!("{}1{}", open.repeat(n), close.repeat(n));
+				let r = run_bin(&bin, &src, &[], &opts.out);
+				let res = if r.code == Some(0) {
+					"ok"
+				} else if r.code == Some(1) {
+					"diag"
+				} else if r.code == Some(101) {
+					"panic"
+				} else {
+					"abort"
+				};
+				c.bump(&format!("deep.{res}"));
+				c.w.case(
+					json!({"op":"fmt.deep","n":n,"open":open,"size":2*n+1}),
+					json!({"res":res,"_msg":r.stderr_tail.chars().take(240).collect::<String>()}),
+				);
+			}
+		}
+	} else {
+		c.bump("main.binary-missing");
+	}
+
+	let hist = c.hist.clone();
+	let n = c.w.n;
+	c.w.finish(
+		json!({"engine":"c20","cases":n,"hist":hist,
+			"rule":"format() guarded on boundary/bytes/token-soup/mutants/truncations (diagnostic-branch outcome vs Lean model); format∘format = format on generated valid programs × indent {tabs,2,4}; jrsonnet-fmt binary vs FmtMain.run"}),
+		&opts.out,
+	);
 }
